@@ -295,7 +295,7 @@ func init() {
 		ID: "C13", Level: "exploration", Batch: 30, PerCaseTimeout: 40 * time.Second,
 		Rule:  "case i = PRNG(seed,i): vault kind by i mod 6 (3x sqlite in-memory, 2x sqlite file-backed, 1x cosmosdb over its fake client), 1-3 plans with hostile field values (quotes, unicode, placeholders, long strings, zero/far-future times, extreme durations, empty vs absent meta, nil vs present groups, four request/response flavours incl. nested structs/maps/bytes/time and nil request, multi-attempt actions with wrapped errors), then 10-50 random Update*/Delete operations; after every step Read is compared structurally with a reference model; every 30th case is a concurrent history (one writer per object issuing Update* with unique versions, 1-3 readers, sqlite in-memory/file) recorded at the harness boundary and checked with porcupine against a per-object register model; distinct/non-trivial by hash of (vault, operation list)",
 		Cases: nCases(240, 6000),
-		Run:   everyNth(30, c13Lin, c13Run),
+		Run:   everyNth(15, c13Lin, c13Run),
 		RaceAttr: func(rb ev.RaceBlock) bool {
 			return rb.HasFunc("workflow/storage/") && !rb.HasFunc("List") && !rb.HasFunc("Search") && !rb.HasFunc("Exists")
 		},
